@@ -66,4 +66,14 @@ theorem wrong_class_refused (decode : Decode) (minted : List Minted) (slot : Slo
 example : honour (fun _ _ => some 7) [{ value := [1], cls := .access, session := 7, active := true }] .userinfo [1] = some 7 := by
   decide
 
+/-- bearer client authentication (revocation endpoint, after the fix for F-C04-a): a string speaks for a
+    client only if it IS an access token this provider issued, unmodified, and that token is still
+    usable — whatever the handler layer makes of the string -/
+theorem bearer_auth_needs_live_access_token (decode : Decode) (minted : List Minted) (s : Str) (sid : Nat)
+    (h : honour decode minted .bearerAuth s = some sid) :
+    ∃ t ∈ minted, t.value = s ∧ t.cls = .access ∧ t.active = true ∧ t.session = sid := by
+  obtain ⟨t, ht, hv, hc, ha, hs⟩ := honoured_is_minted decode minted .bearerAuth s sid h
+  refine ⟨t, ht, hv, ?_, ha, hs⟩
+  cases hcl : t.cls <;> simp [slotAccepts, hcl] at hc ⊢
+
 end Idpy.Props.C04
